@@ -43,8 +43,8 @@ ASSUMPTIONS = [
     "documents with type-system definitions are parsed with allow_type_system=True",
 ]
 BOUNDS = {
-    "quick": {"valid_base_nodes": 3, "valid_dev_nodes": 1, "hand_seeds_deviated": [2, 3, 4, 5], "labelled_seed_nodes": 1, "def_perm_max": 4, "list_perm_max": 3},
-    "thorough": {"valid_base_nodes": 4, "valid_dev_nodes": 2, "hand_seeds_deviated": [0, 1, 2, 3, 4, 5], "labelled_seed_nodes": 2, "def_perm_max": 4, "list_perm_max": 4},
+    "quick": {"valid_base_nodes": 3, "valid_dev_nodes": 1, "hand_seeds_deviated": [2, 3, 4, 5], "labelled_seed_nodes": 1, "def_perm_max": 4, "list_perm_max": 3, "four_field_conflicts": False, "earlier_operations": [2], "trivia": ["commas", "comments"]},
+    "thorough": {"valid_base_nodes": 4, "valid_dev_nodes": 2, "hand_seeds_deviated": [0, 1, 2, 3, 4, 5], "labelled_seed_nodes": 2, "def_perm_max": 4, "list_perm_max": 4, "four_field_conflicts": True, "earlier_operations": [1, 2], "trivia": ["newlines", "commas", "comments", "tabs-bom"]},
 }
 TIME_CAP = {"quick": 150, "thorough": 1500}
 
@@ -153,8 +153,11 @@ def _perms(n, maxfull):
 _VAR = re.compile(r"\$([A-Za-z_][A-Za-z_0-9]*)")
 
 
-def _rename(doc, amap, fmap, vmap):
+def _rename(doc, amap, fmap, vmap, omap=None):
     doc = copy.deepcopy(doc)
+    for op in doc["ops"]:
+        if omap and (op.get("name") or "") in omap:
+            op["name"] = omap[op.get("name") or ""]
 
     def vtext(t):
         return _VAR.sub(lambda m: "$" + vmap.get(m.group(1), m.group(1)), t) if t is not None else None
@@ -260,8 +263,91 @@ def _respell(text, sep):
     return "".join(out)
 
 
-def variants(sm, doc, bounds):
-    """(tag, text) for every member of the metamorphic class (excluding the document itself)"""
+def _doc_field_names(doc):
+    out = []
+    for lst in _lists(doc):
+        for s_ in lst:
+            if s_[0] == "f" and not s_[1].startswith("__") and s_[1] not in out:
+                out.append(s_[1])
+    return out
+
+
+def _doc_arg_names(doc):
+    out = []
+    for lst in _lists(doc):
+        for s_ in lst:
+            if s_[0] == "f":
+                for a in s_[4]:
+                    if a.strip() not in out:
+                        out.append(a.strip())
+    return out
+
+
+def collisions(sm, doc):
+    """renamings that make names of DIFFERENT kinds equal where the specification allows it
+    (operation = fragment, fragment = field / type, variable = argument / field / fragment,
+    alias = a field name used nowhere in the document / a type name); the verdict must not change"""
+    aliases, frags, vars_ = _names(doc)
+    fieldnames = O._all_field_names(sm)
+    aliases = [a for a in aliases if a not in fieldnames]
+    text = O.render(doc)
+    dfields = _doc_field_names(doc)
+    dargs = _doc_arg_names(doc)
+    opnames = [op.get("name") for op in doc["ops"]]
+    typenames = [n for n in sm["types"] if n not in frags]
+    # operation name = fragment name (a lone anonymous operation gets the name)
+    if frags:
+        for oi, on in enumerate(opnames):
+            if on or len(doc["ops"]) == 1:
+                for fn in sorted({frags[0], frags[-1]}):
+                    if fn not in opnames:
+                        if on:
+                            # every operation of that name (consistent renaming)
+                            yield "collide:operation=fragment", O.render(_rename(doc, {}, {}, {}, {on: fn}))
+                        else:
+                            d2 = copy.deepcopy(doc)
+                            d2["ops"][oi]["name"] = fn
+                            yield "collide:operation=fragment", O.render(d2)
+    # fragment name = field name of the document / type name
+    for fr in frags[:2]:
+        for target in dfields[:1] + typenames[:1]:
+            if target not in frags and target != "on":
+                yield "collide:fragment=%s" % ("field" if target in dfields else "type"), O.render(_rename(doc, {}, {fr: target}, {}))
+    # variable name = argument name / field name / fragment name
+    for v in vars_[:2]:
+        for kind, pool in (("argument", dargs), ("field", dfields), ("fragment", frags)):
+            cand = [x for x in pool if x not in vars_]
+            if cand:
+                yield "collide:variable=%s" % kind, O.render(_rename(doc, {}, {}, {v: cand[0]}))
+    # alias = a field name of the schema that occurs nowhere in the document / a type name
+    import re as _re
+
+    words = set(_re.findall(r"[A-Za-z_][A-Za-z_0-9]*", text))
+    free = sorted(f for f in fieldnames if f not in words)
+    for a in aliases[:2]:
+        if free:
+            yield "collide:alias=unused-field-name", O.render(_rename(doc, {a: free[0]}, {}, {}))
+        tn = [t for t in sm["types"] if t not in aliases]
+        if tn:
+            yield "collide:alias=type-name", O.render(_rename(doc, {a: tn[0]}, {}, {}))
+    # operation name = field name / type name
+    for oi, on in enumerate(opnames):
+        if on and dfields and dfields[0] not in opnames:
+            yield "collide:operation=field", O.render(_rename(doc, {}, {}, {}, {on: dfields[0]}))
+            break
+
+
+def variants(sm, doc, bounds, only=None):
+    """(tag, text) for every member of the metamorphic class (excluding the document itself);
+    `only`: restrict to transformations whose tag starts with one of these prefixes"""
+    for tag, text in _variants(sm, doc, bounds):
+        if only is None or tag.startswith(tuple(only)):
+            yield tag, text
+
+
+def _variants(sm, doc, bounds):
+    for x in collisions(sm, doc):
+        yield x
     ndefs = len(doc["ops"]) + len(doc["frags"])
     if ndefs >= 2:
         for p in _perms(ndefs, bounds["def_perm_max"]):
@@ -306,10 +392,9 @@ def variants(sm, doc, bounds):
     if vars_:
         yield "rename-variables:length", O.render(_rename(doc, {}, {}, _length_flip(vars_, (), False)))
     text = O.render(doc)
-    yield "trivia:newlines", _respell(text, "\n")
-    yield "trivia:commas", _respell(text, ", ")
-    yield "trivia:comments", _respell(text, " #c\n")
-    yield "trivia:tabs-bom", "﻿" + _respell(text, "\t") + "\n"
+    spell = {"newlines": lambda: _respell(text, "\n"), "commas": lambda: _respell(text, ", "), "comments": lambda: _respell(text, " #c\n"), "tabs-bom": lambda: "\ufeff" + _respell(text, "\t") + "\n"}
+    for k in bounds.get("trivia", list(spell)):
+        yield "trivia:" + k, spell[k]()
 
 
 # ---------------------------------------------------------------------------------------------
@@ -416,7 +501,7 @@ def check_variant(name, doc, label, tag, verdict, base_errors, ttag, vtext, st):
     return cls, _wit(name, doc, label, tag, {"tag": ttag, "text": vtext}), detail
 
 
-def evaluate(name, case, label, tag, st, bounds):
+def evaluate(name, case, label, tag, st, bounds, only=None):
     """label: None (valid by construction) or the rule class name the document violates.
     -> list of (class, witness, detail)"""
     sm = S.SCHEMAS[name]
@@ -426,7 +511,7 @@ def evaluate(name, case, label, tag, st, bounds):
         return out
     seen = {O.render(doc)}
     reported = set()
-    for ttag, vtext in variants(sm, doc, bounds):
+    for ttag, vtext in variants(sm, doc, bounds, only):
         if vtext in seen:
             continue
         seen.add(vtext)
@@ -481,14 +566,30 @@ def _check_case(case, st):
         seeds = _labelled_seeds(b["labelled_seed_nodes"])
         name, seed = seeds[case["seed"]]
         sm = S.SCHEMAS[name]
+        multi_done = set()
         for j, (_op, rule, tag, c) in enumerate(M.all_mutants(sm, seed, labelled_only=True)):
             if j < case["from"]:
+                # (kinds already covered by an earlier chunk of this seed)
+                multi_done.add(":".join(tag.split(":")[:3]))
                 continue
             if j >= case["to"]:
                 break
+            if ":four:" in tag and not b["four_field_conflicts"]:
+                continue
             if st.counters.get("evaluations", 0) % 2999 == 1:
                 st.sample({"expected": rule, "mutation": tag, "doc": O.render(c["doc"])})
-            out.extend(evaluate(name, c, rule, tag, st, b))
+            only = ("definition-order", "selection-order", "rename-fragments", "collide:fragment") if tag.startswith("conflict-among-several") else None
+            out.extend(evaluate(name, c, rule, tag, st, b, only))
+            # the same violation in the 2nd / 3rd operation of a document whose earlier operations
+            # are valid and already use the shared fragments (once per operator kind and seed)
+            kind3 = ":".join(tag.split(":")[:3])
+            if rule in M.PER_OPERATION_RULES and kind3 not in multi_done and not tag.startswith("conflict-among-several"):
+                multi_done.add(kind3)
+                for n_earlier in b["earlier_operations"]:
+                    c2 = M.with_earlier_operations(sm, seed, c, n_earlier)
+                    if c2 is not None:
+                        st.n("multi_operation_documents")
+                        out.extend(evaluate(name, c2, rule, tag + ":earlier-operations:%d" % n_earlier, st, b, ("definition-order", "collide:operation")))
             if st.out_of_time():
                 break
         return out
